@@ -1,5 +1,5 @@
 (** Coinswap proofs, part 3: the share-value invariant (C01). *)
-From Coq Require Import ZArith List Bool Lia Psatz.
+From Coq Require Import ZArith List Bool Lia.
 From Canto Require Import Lib.SdkInt Lib.SdkDec Lib.SdkDecProofs Model.Coinswap
      Proofs.CoinswapBase Proofs.CoinswapEffects.
 Import ListNotations.
